@@ -149,6 +149,8 @@ struct Env {
     cas: Cas,
     rsync_log: PathBuf,
     n: usize,
+    /// CAs announcing other (dubious) rpkiNotify URIs, made on demand
+    dubious_cas: std::collections::HashMap<String, Cas>,
 }
 
 fn take_rsync_log(path: &Path) -> Vec<String> {
@@ -189,6 +191,17 @@ fn run_row(ctx: &mut Ctx, env: &mut Env, input: &Value) {
     let (Some(rrdp), Some(rsync), Some(notify)) =
         (input["rrdp"].as_bool(), input["rsync"].as_bool(), input["notify"].as_bool()) else { return };
     let Some(fallback_policy) = policy_of(policy) else { return };
+    // Rows with dubious hosts NOT allowed and an rpkiNotify URI with a dubious authority:
+    // the CA announces RRDP, the load is rejected without a request (`Unavailable`).
+    let dubious_notify = input["dubious_notify"].as_str().map(String::from);
+    if let Some(text) = dubious_notify.as_ref() {
+        let Ok(parsed) = uri::Https::from_str(text) else { return };
+        if !crate::c31::expected_dubious(parsed.authority()) { return }
+        if !env.dubious_cas.contains_key(text) {
+            env.dubious_cas.insert(text.clone(), make_cas(text, "rsync://rsync.example/repo/ca/"));
+        }
+    }
+    let rejected = dubious_notify.is_some() && rrdp && notify;
     // `copy` = a local copy and a failing update; current or stale is decided by the stored
     // best-before time and the clock, not by the row's label.
     if !["updated", "current", "stale", "unavailable", "copy"].contains(&outcome) { return }
@@ -241,8 +254,10 @@ fn run_row(ctx: &mut Ctx, env: &mut Env, input: &Value) {
     config.rrdp_fallback = fallback_policy;
     config.disable_rrdp = !rrdp;
     config.disable_rsync = !rsync;
+    config.allow_dubious_hosts = dubious_notify.is_none();
+    let cas = match dubious_notify.as_ref() { Some(text) => &env.dubious_cas[text], None => &env.cas };
     // … what is stored …
-    let stored = stored_best_before(&config, &env.cas.notify);
+    let stored = stored_best_before(&config, &cas.notify);
     if has_copy != stored.is_some() {
         ctx.oracle_fail("setup-broken", "local copy missing or unexpected", input, json!({"stored": stored}));
         return
@@ -265,19 +280,28 @@ fn run_row(ctx: &mut Ctx, env: &mut Env, input: &Value) {
     let mut collector = Collector::new(&config).expect("collector");
     collector.ignite().expect("ignite");
     let run = collector.start();
-    let ca = if notify { &env.cas.with_notify } else { &env.cas.without_notify };
+    let ca = if notify { &cas.with_notify } else { &cas.without_notify };
     let transport = match run.repository(ca) {
         Ok(Some(repo)) => if repo.is_rrdp() { "rrdp" } else { "rsync" },
         Ok(None) => "none",
         Err(_) => "error",
     };
     let http_log = env.srv.take_log();
-    let asked = http_log.iter().any(|r| r.path.ends_with("/notification.xml"));
+    // was the RRDP runner consulted for this CA? On the wire: a notification request; for a
+    // rejected URI there is none, the runner's record of handled repositories tells.
+    let asked = if dubious_notify.is_some() {
+        run.verif_rrdp().map(|r| r.was_updated(&cas.notify)).unwrap_or(false)
+    } else {
+        http_log.iter().any(|r| r.path.ends_with("/notification.xml"))
+    };
+    if dubious_notify.is_some() && !http_log.is_empty() {
+        ctx.oracle_fail("dubious-request", "a request was sent although the host is dubious", input, json!({}));
+    }
     let rsync_log = take_rsync_log(&env.rsync_log);
     let spawned = !rsync_log.is_empty();
     // what the RRDP runner concluded (cached on the run, no second fetch)
     let observed_outcome = if asked {
-        match run.verif_rrdp().map(|r| r.load_repository(&env.cas.notify)) {
+        match run.verif_rrdp().map(|r| r.load_repository(&cas.notify)) {
             Some(Ok(LoadResult::Updated(_))) => "updated",
             Some(Ok(LoadResult::Current)) => "current",
             Some(Ok(LoadResult::Stale)) => "stale",
@@ -295,8 +319,9 @@ fn run_row(ctx: &mut Ctx, env: &mut Env, input: &Value) {
     ctx.case(
         input,
         &format!(
-            "c29 {policy} {} {} {} {} {} {now} {} {}", b(rrdp), b(rsync), b(notify), b(update_ok),
-            stored.map(|v| v.to_string()).unwrap_or_else(|| "-".into()), between.refresh, between.fallback
+            "c29 {policy} {} {} {} {} {} {now} {} {} {}", b(rrdp), b(rsync), b(notify), b(update_ok),
+            stored.map(|v| v.to_string()).unwrap_or_else(|| "-".into()), between.refresh, between.fallback,
+            b(rejected)
         ),
         &format!("transport={transport} asks={} outcome={observed_outcome}", b(asked)),
     );
@@ -307,7 +332,7 @@ fn run_row(ctx: &mut Ctx, env: &mut Env, input: &Value) {
     // "current copy" = the stored best-before time has not passed, "expired" = it has.
     // In the very second of the best-before time the statement does not decide; the
     // implementation's answer is taken there.
-    let truth = if update_ok { "updated" } else {
+    let truth = if rejected { "unavailable" } else if update_ok { "updated" } else {
         match stored {
             None => "unavailable",
             Some(bb) if now < bb => "current",
@@ -317,7 +342,7 @@ fn run_row(ctx: &mut Ctx, env: &mut Env, input: &Value) {
     };
     ctx.count(&format!("truth:{truth}"));
     ctx.nontrivial(format!(
-        "{policy}/{truth}/{rrdp}/{rsync}/{notify}/{}/{}/{}",
+        "{policy}/{truth}/{rrdp}/{rsync}/{notify}/{:?}/{}/{}/{}", dubious_notify,
         between.refresh.cmp(&between.prep_refresh) as i8,
         between.fallback.cmp(&between.prep_fallback) as i8, between.clock
     ));
@@ -330,8 +355,9 @@ fn run_row(ctx: &mut Ctx, env: &mut Env, input: &Value) {
     let changed = between.refresh != between.prep_refresh || between.fallback != between.prep_fallback
         || between.clock == "back";
     let class = format!(
-        "row:{policy}/{truth}/rrdp={}/rsync={}/notify={}{}", b(rrdp), b(rsync), b(notify),
-        if changed { "/config-or-clock-changed" } else { "" }
+        "row:{policy}/{truth}/rrdp={}/rsync={}/notify={}{}{}", b(rrdp), b(rsync), b(notify),
+        if changed { "/config-or-clock-changed" } else { "" },
+        if dubious_notify.is_some() { "/dubious-notify" } else { "" }
     );
     if transport != expected {
         ctx.oracle_fail(
@@ -424,12 +450,38 @@ pub fn between_rows() -> Vec<Value> {
     res
 }
 
+/// CAs announcing RRDP at a dubious authority while dubious hosts are not allowed.
+pub fn dubious_rows() -> Vec<Value> {
+    let mut res = Vec::new();
+    for notify in [
+        "https://localhost/rrdp/notification.xml", "https://127.0.0.1:1/notification.xml",
+        "https://192.0.2.1/notification.xml", "https://rrdp.example.net:8443/notification.xml",
+        "https://LOCALHOST/notification.xml",
+    ] {
+        for policy in ["never", "new", "stale"] {
+            for rsync in [true, false] {
+                res.push(json!({
+                    "policy": policy, "outcome": "unavailable", "rrdp": true, "rsync": rsync, "notify": true,
+                    "dubious_notify": notify
+                }));
+            }
+        }
+    }
+    // and with RRDP disabled / the twin CA without rpkiNotify
+    res.push(json!({"policy": "never", "outcome": "unavailable", "rrdp": false, "rsync": true, "notify": true,
+        "dubious_notify": "https://rrdp.example.net:8443/notification.xml"}));
+    res.push(json!({"policy": "never", "outcome": "unavailable", "rrdp": true, "rsync": true, "notify": false,
+        "dubious_notify": "https://rrdp.example.net:8443/notification.xml"}));
+    res
+}
+
 pub fn run_c29(ctx: &mut Ctx) {
     ctx.rule = "(a) the full product fallback policy × RRDP outcome × RRDP enabled × rsync enabled × rpkiNotify present \
         (96 rows) and (b) 168 rows with a local copy and a failing update where refresh and rrdp-fallback-time are each \
         unchanged / lowered / raised and the clock is stepped back / shortly after / one second before, at, after the \
         stored best-before / far beyond, between the update that stored the copy and the failing one; exhaustive in \
-        both tiers, order shuffled by the seed; each row is produced with real transports (HTTPS server serving or \
+        both tiers, order shuffled by the seed; (c) 32 rows with dubious hosts not allowed and an rpkiNotify URI at a \
+        dubious authority (localhost in two cases, IP literals, explicit port) × policy × rsync on/off; each row is produced with real transports (HTTPS server serving or \
         refusing a one-object RRDP repository, preparatory successful update, fake clock, fake rsync command); the \
         outcome class is derived from the best-before time decoded from the archive and the clock; observed: transport \
         handed back, rsync spawns, notification requests, the runner's LoadResult".into();
@@ -442,13 +494,14 @@ pub fn run_c29(ctx: &mut Ctx) {
     rvcore::clock::set(T0, 0);
     let srv = httpsrv::Server::start();
     let cas = make_cas(&srv.url("/rrdp/notification.xml"), "rsync://rsync.example/repo/ca/");
-    let mut env = Env { dir: dir.clone(), srv, cas, rsync_log, n: 0 };
+    let mut env = Env { dir: dir.clone(), srv, cas, rsync_log, n: 0, dubious_cas: Default::default() };
     let inputs = match ctx.replay_inputs() {
         Some(inputs) => inputs,
         None => {
             let mut res = ctx.corpus("C29");
             let mut rows = all_rows();
             rows.extend(between_rows());
+            rows.extend(dubious_rows());
             ctx.rng.shuffle(&mut rows);
             res.extend(rows);
             res
